@@ -60,6 +60,10 @@ static unsigned long spec_extensions(void) {
 #define NF 2
 typedef struct { DString * buf; int step; bool header, footer, trans, accept, reject, conv; unsigned long ext; short format, lang; const char * folder; const char * trans_folder; DString * result;
                  const char * opened; FILE * stream; int writes; bool write_ok; int closed; } rec;
+#ifndef FMT_STR
+#define FMT_ENUM FORMAT_HTML
+#define FMT_EXT ".html"
+#endif
 static rec g_r[NF]; static int g_cur = -1; static char g_name[NF][8]; static char g_orig[NF][8]; static FILE * g_out[NF]; static FILE * g_stdout_obj; static int g_scans, g_stdin; static bool g_stdin_mode;
 static rec * cur(void) { ASSERT(g_cur >= 0 && g_cur < NF, "ghost: a file is being processed"); return &g_r[g_cur]; }
 static DString * mkds(size_t n) { DString * d = malloc(sizeof(DString)); d->str = malloc(n + 1); d->str[n] = 0; d->currentStringLength = n; d->currentStringBufferSize = n + 1; return d; }
@@ -81,12 +85,13 @@ DString * mmd_d_string_convert_to_data(DString * source, unsigned long extension
 char * mmd_string_metadata_keys(const char * s) { return NULL; }
 char * mmd_string_metavalue_for_key(const char * s, const char * k) { return NULL; }
 void token_pool_init(void) { } void token_pool_drain(void) { } void token_pool_free(void) { } void custom_seed_rand(void) { }
-int unzip_data_to_path(const void * data, size_t size, const char * path) { return 1; }
+static int g_unzips; static bool g_unzip_ok; static char g_unzip_path[NF][24];
+int unzip_data_to_path(const void * data, size_t size, const char * path) { rec * r = cur(); g_unzips++; g_unzip_ok = r->conv && data == (const void *)r->result->str && size == r->result->currentStringLength; for (int i = 0; i < 23; i++) { g_unzip_path[g_cur][i] = path[i]; if (!path[i]) { break; } } return 1; }
 /* glibc's dirname: cuts its argument at the last '/' IN PLACE and returns it ("." when there is none) */
 static char g_dot[2] = ".";
 char * dirname(char * path) { int last = -1; for (int i = 0; i < 8 && path[i]; i++) { if (path[i] == '/') { last = i; } } if (last < 0) { return g_dot; } path[last] = 0; return path; }
 char * realpath(const char * path, char * resolved) { if (resolved) { resolved[0] = '/'; resolved[1] = 0; } return resolved; }
-FILE * fopen(const char * name, const char * mode) { rec * r = cur(); ASSERT(r->opened == NULL, "(O) one output file per input"); { static char copy[NF][12]; for (int i = 0; i < 11; i++) { copy[g_cur][i] = name[i]; if (!name[i]) { break; } } copy[g_cur][11] = 0; r->opened = copy[g_cur]; }      /* main() frees the name after use: keep a copy */ r->stream = g_out[g_cur]; ASSERT(mode[0] == 'w', "(O) opened for writing"); return r->stream; }
+FILE * fopen(const char * name, const char * mode) { rec * r = cur(); ASSERT(r->opened == NULL, "(O) one output file per input"); { static char copy[NF][24]; for (int i = 0; i < 23; i++) { copy[g_cur][i] = name[i]; if (!name[i]) { break; } } copy[g_cur][23] = 0; r->opened = copy[g_cur]; }      /* main() frees the name after use: keep a copy */ r->stream = g_out[g_cur]; ASSERT(mode[0] == 'w', "(O) opened for writing"); return r->stream; }
 size_t fwrite(const void * p, size_t size, size_t n, FILE * f) {
 	rec * r = cur(); r->writes++;
 	r->write_ok = r->conv && p == (const void *)r->result->str && size * n == r->result->currentStringLength && (g_stdin_mode ? (f == g_stdout_obj || f == r->stream) : f == r->stream);
@@ -102,7 +107,9 @@ static void setup_options(bool batch) {
 	g_o.count = 0; g_stdout_obj = (FILE *)ALLOC(8); stdout = g_stdout_obj;
 	for (int i = 0; i < NF; i++) { g_out[i] = (FILE *)ALLOC(8); }
 }
+static bool g_fmt_given;
 static void fix_controls(bool batch) {
+	for (int i = 0; i < 4; i++) { if (i < g_nstr && strcmp(g_str_name[i], "to") == 0) { g_str[i].count = g_fmt_given ? 1 : 0; g_sval[i][0] = g_sval[0][0]; } }
 	/* main() has now created the option records: switch off the ones that end the run early, fix the mode */
 	for (int i = 0; i < NLIT; i++) {
 		if (i < g_nlit) {
@@ -119,14 +126,17 @@ static void check_common(rec * r, unsigned long want) {
 	bool compat = (want & EXT_COMPATIBILITY) != 0;
 	ASSERT((r->header ? 1 : 0) == (compat ? 0 : 1) && (r->footer ? 1 : 0) == (compat ? 0 : 1), "(S) MMD header / footer are applied unless in compatibility mode");
 	ASSERT((r->accept ? 1 : 0) == ((want & EXT_CRITIC_ACCEPT) ? 1 : 0) && (r->reject ? 1 : 0) == ((want & EXT_CRITIC_REJECT) ? 1 : 0), "(S) CriticMarkup is accepted / rejected in the source iff the options ask for it");
-	ASSERT(r->writes == 1 && r->write_ok, "(O) the result is written once, with fwrite, all currentStringLength bytes of it, to the right stream");
+	if (r->format != FORMAT_TEXTBUNDLE || g_stdin_mode) { ASSERT(r->writes == 1 && r->write_ok, "(O) the result is written once, with fwrite, all currentStringLength bytes of it, to the right stream"); }
 }
 void h_cli_batch(void) {
 	g_batch = true; setup_options(true);
 	/* two input files; -t html */
 	{ const char a[8] = "a/x.md", b[8] = "bb/y.t"; for (int i = 0; i < 8; i++) { g_name[0][i] = a[i]; g_orig[0][i] = a[i]; g_name[1][i] = b[i]; g_orig[1][i] = b[i]; } }
 	g_file_names[0] = g_name[0]; g_file_names[1] = g_name[1]; g_files.count = 2;
-	g_sval[0][0] = "html"; g_o_name[0] = NULL;
+	g_o_name[0] = NULL;
+#ifdef FMT_STR
+	g_sval[0][0] = FMT_STR; g_fmt_given = true;          /* -t FMT_STR (one unit per format name) */
+#endif
 	char * argv[1] = { "mmd" };
 	int rc = main(1, argv);
 	unsigned long want = spec_extensions();
@@ -134,12 +144,16 @@ void h_cli_batch(void) {
 	for (int i = 0; i < NF; i++) {
 		rec * r = &g_r[i];
 		check_common(r, want);
-		ASSERT(r->format == FORMAT_HTML, "(E) default format");
+		ASSERT(r->format == FMT_ENUM, "(E) the format handed to the library is the one named by -t (html when -t is not given)");
 		ASSERT((r->trans ? 1 : 0) == ((want & EXT_TRANSCLUDE) ? 1 : 0), "(S) transclusion iff enabled");
 		/* (O) output name: the ORIGINAL input name without its extension + ".html" */
-		const char * exp = (i == 0) ? "a/x.html" : "bb/y.html";
-		ASSERT(r->opened != NULL && strcmp(r->opened, exp) == 0, "(O) batch output goes to <input name as given, without its extension>.html (dirname() cutting its argument in place must not shorten it)");
-		ASSERT(r->closed == 1, "(O) the output file is closed");
+		const char * exp = (i == 0) ? "a/x" FMT_EXT : "bb/y" FMT_EXT;
+		if (FMT_ENUM == FORMAT_TEXTBUNDLE) {
+			ASSERT(g_unzips == 2 && g_unzip_ok && strcmp(g_unzip_path[i], exp) == 0 && r->opened == NULL, "(O) an uncompressed TextBundle is unpacked to <input name>.textbundle, all of it");
+		} else {
+			ASSERT(r->opened != NULL && strcmp(r->opened, exp) == 0, "(O) batch output goes to <input name as given, without its extension> + the format's extension (dirname() cutting its argument in place must not shorten it)");
+			ASSERT(r->closed == 1, "(O) the output file is closed");
+		}
 		/* (F) folder = dirname of the input */
 		ASSERT(r->folder != NULL && strcmp(r->folder, i == 0 ? "a" : "bb") == 0, "(F) the asset / transclusion folder is the input file's directory");
 	}
